@@ -180,7 +180,7 @@ int main(int argc, char **argv)
       continue;
     seqs.push_back(s);
   }
-  long nRandom = asan ? vh::tier(30, 200) : vh::tier(120, 1200);
+  long nRandom = asan ? vh::tier(30, 150) : vh::tier(120, 500);
   for (long i = 0; i < nRandom; ++i) {
     Seq s;
     int len = (int)r.range(2, vh::thorough() ? 10 : 5);
